@@ -3,7 +3,7 @@
    Gallina functions (total by construction); that the code terminates like the
    model is what the correspondence checks (every call under an alarm). *)
 From Coq Require Import List Bool Arith.
-From PM Require Import Model.Data Model.Mark Model.Tree Model.Diff Spec.DiffSpec Proofs.DiffProofs Proofs.TokenInj Proofs.DiffPositions.
+From PM Require Import Model.Data Model.Mark Model.Tree Model.Diff Spec.DiffSpec Proofs.DiffProofs Proofs.TokenInj Proofs.DiffPositions Proofs.DiffEnd Proofs.DiffEndPositions.
 Import ListNotations.
 
 (* the object-identity fast path (shared sub-trees after an edit) never changes the answer *)
@@ -40,5 +40,27 @@ Proof.
 Qed.
 Print Assumptions C20_start_position_is_common_prefix.
 
-(* still evaluated per case by Corr.C20.holds: the end-direction analogue (find_diff_end reports the pair of
-   positions after which the two sequences agree). *)
+(* ---- the scan from the end (find_diff_end; modelled over the mirrored tree, Model/Diff.v) ---- *)
+Theorem C20_end_identity_fast_path_irrelevant : forall s (o : node -> node -> bool),
+  sound_oracle o -> forall a b pa pb, find_diff_end s o a b pa pb = find_diff_end s never a b pa pb.
+Proof. exact diff_end_oracle_irrelevant. Qed.
+Print Assumptions C20_end_identity_fast_path_irrelevant.
+
+(* nothing is reported exactly when the fragments are equal (any admissible sharing) *)
+Theorem C20_end_none_iff_equal : forall s (o : node -> node -> bool), sound_oracle o -> forall a b pa pb,
+  wf_text_list a = true -> wf_text_list b = true ->
+  (find_diff_end s o a b pa pb = None <-> frag_eqb a b = true).
+Proof. exact diff_end_none_iff. Qed.
+Print Assumptions C20_end_none_iff_equal.
+
+(* the reported pair is the true last difference: under the hypotheses of C20_start_position_is_common_prefix, the
+   pair of positions find_diff_end reports is the given pair of end positions, each moved back by the length of the
+   longest common SUFFIX of the two markup-annotated token sequences - after those positions the two sequences
+   agree, and the tokens just before them differ (or one sequence is exhausted) *)
+Theorem C20_end_position_is_common_suffix : forall s (o : node -> node -> bool), sound_oracle o ->
+  forall a b pa pb qa qb,
+  canon_list s a = true -> canon_list s b = true -> ok_list a = true -> ok_list b = true ->
+  find_diff_end s o a b pa pb = Some (qa, qb) ->
+  let k := lcp (rev (aftoks s a)) (rev (aftoks s b)) in qa = pa - k /\ qb = pb - k.
+Proof. exact find_diff_end_position. Qed.
+Print Assumptions C20_end_position_is_common_suffix.
